@@ -312,7 +312,7 @@ func ReportSched(r *ev.Run, id string, res sched.Result, descr map[string]interf
 	if res.EngineError != "" {
 		panic("E2 engine error in " + res.Scenario + ": " + res.EngineError)
 	}
-	if res.MaxPoints == 0 {
+	if res.Steps < 10*res.Schedules {
 		panic("E2 engine error in " + res.Scenario + ": no scheduling points were hit (instrumentation missing?)")
 	}
 	r.EvalN("sched/"+res.Scenario, res.Schedules)
